@@ -499,7 +499,8 @@ fn leaves_of(ty: i128, code: i128) -> Vec<(i128, [String; NF])> {
         1 => <i32 as Elem>::leaves(code),
         2 => <f64 as Elem>::leaves(code),
         3 => <String as Elem>::leaves(code),
-        _ => <Nest as Elem>::leaves(code),
+        4 => <Nest as Elem>::leaves(code),
+        _ => <Kv as Elem>::leaves(code),
     }
 }
 
